@@ -116,6 +116,9 @@ pub fn check_pool(ctx: &mut Ctx, b: &ConvBound, w: &World, trace: &[Act], mon: &
         let mut visit = |ctx: &mut Ctx, node: &LatticeNode| {
             let c = || case_json(b, trace, &who, node.path);
             mon.node(ctx, &pool, node, &c);
+            if node.full {
+                ctx.sample(c);
+            }
         };
         lattice(ctx, &pool, &base, b.budget, b.kinds, &cj, &mut visit);
     }
